@@ -84,14 +84,15 @@ class Engine(object):
         return o
 
     def feasible(self, st, cond=None):
+        """path pruning: False only when the path condition is certainly unsatisfiable (sound to skip the path)"""
         if not self.prune:
             return True
+        self._prune_solver_calls += 1
         s = z3.Solver()
         s.set('timeout', 400)
         s.add(*st.pc)
         if cond is not None:
             s.add(cond)
-        self._prune_solver_calls += 1
         return s.check() != z3.unsat
 
     def branch(self, st, cond, k_true, k_false, note=None):
@@ -589,6 +590,26 @@ class Engine(object):
                 cont(s2, pos, kws)
             self.ev_seq(list(n.args) + kwnodes, s, got)
 
+        if isinstance(f, ast.Name) and f.id == '_cut' and getattr(n, '_is_ghost', False):
+            # ghost cut: the given facts are proved here (obligations) and, from here on, they replace every other
+            # QUANTIFIED hypothesis of the path except the preconditions (dropping hypotheses is always sound)
+            from .smt import _has_quant
+            label = n.args[0].value
+            s2 = st.fork()
+            s2.env = dict(st.env)
+            for nm, v in self.entry_state.env.items():
+                s2.env.setdefault(nm, v)
+            ctx = SpecCtx(s2, old=self.entry_state, entry=self.entry_state)
+            fmls = []
+            for a in n.args[1:]:
+                fmls.append((a.value, self.speceval.formula(a.value, ctx)))
+            st.assume(*ctx.side)
+            for i, (txt, fml) in enumerate(fmls):
+                self.oblige('cut/%s/%d' % (label, i), st, fml, getattr(n, 'lineno', None))
+            keep_ids = getattr(self, 'requires_ids', set())
+            side_ids = set(x.get_id() for x in ctx.side)
+            st.pc = [h for h in st.pc if (not _has_quant(h)) or h.get_id() in keep_ids or h.get_id() in side_ids] + [f_ for _, f_ in fmls]
+            return k(st, NONE_V)
         if isinstance(f, ast.Name) and f.id == '_assume' and getattr(n, '_is_ghost', False):
             # ghost assumption (recorded in the evidence as an assumption of this contract)
             s2 = st.fork()
@@ -1259,7 +1280,8 @@ class Engine(object):
             st.assume(*ctx.side)
             lname = ('loop%d' % ordinal) if isinstance(ordinal, int) else ('%s(%s)/loop' % (st.ctl.inl[3].name, ordinal))
             o = self.oblige('%s/%s/%s' % (lname, what, iname), st, f, line)
-            o.ctx = ctx
+            snap = st.fork()
+            o.ctx = SpecCtx(snap, old=ent, extra=extra, entry=ent)      # snapshot for the developer probe tool
             o.engine = self
             if what == 'inv_step' and iname in lspec.uses:
                 keep = lspec.uses[iname] | set([iname])
